@@ -71,6 +71,18 @@ class LatShim:
         return self._c.__getitem__(key, **kw)
 
 
+class OrphanShim:
+    """What is left when a caller keeps only concept objects: no context, no lattice variable.  The lattice is
+    reached through the public attribute ``Concept.lattice`` of a kept member, for the duration of one call."""
+
+    def __init__(self, members):
+        self.__dict__["_ms"] = members
+
+    @property
+    def lattice(self):
+        return self._ms[0].lattice
+
+
 def _positions(labels, pos):
     return [pos.get(x, -1) for x in labels]
 
@@ -108,7 +120,23 @@ class CtxRecorder:
         self.olabels, self.plabels = labels_for(n, m, label_variant)
         self.opos = {x: i + 1 for i, x in enumerate(self.olabels)}
         self.ppos = {x: j + 1 for j, x in enumerate(self.plabels)}
-        self.ctx = self.C.Context(self.olabels, self.plabels, table.bools())
+        bools = table.bools()
+        self.ctx = None
+        kind = b % 7
+        if kind in (3, 5) and n * m <= 4000:
+            # cells given as 1/0 (kind 3) or as counts 0 / k > 0 (kind 5) instead of True / False.  What the
+            # constructor makes of such cells is not fixed by any property, so this is tolerant: the object is used
+            # only if it is built and reports (.bools) the truthiness table; everything else is then judged on it.
+            cells = [tuple((1 if kind == 3 else 2 + (3 * i + 5 * j) % 4) if x else 0 for j, x in enumerate(row))
+                     for i, row in enumerate(bools)]
+            try:
+                cand = self.C.Context(self.olabels, self.plabels, cells)
+                if [tuple(bool(x) for x in r) for r in cand.bools] == [tuple(r) for r in bools]:
+                    self.ctx = cand
+            except Exception:
+                self.ctx = None
+        if self.ctx is None:
+            self.ctx = self.C.Context(self.olabels, self.plabels, bools)
         self._members = None
         vandalise(self.ctx.bools)           # the list returned by .bools is the caller's
         self.ev('ctx.new', n=n, m=m, rows=rows, tag=tag)
@@ -197,6 +225,16 @@ class CtxRecorder:
         for which, fn in (('fast_generate_from', alg.fast_generate_from), ('fcbo_dual', alg.fcbo_dual),
                           ('get_concepts', alg.get_concepts), ('iterconcepts', alg.iterconcepts)):
             res, budget = [], 1500000
+            if self.b % 2 == 0:
+                # a consumer that stops early, and a second generator started before the first one has finished
+                g1, g2 = fn(self.ctx), fn(self.ctx)
+                for _x in itertools.islice(g1, 2):
+                    pass
+                for _x in itertools.islice(g2, 1):
+                    pass
+                for _x in itertools.islice(g1, 1):
+                    pass
+                del g1, g2
             for x, i in itertools.islice(fn(self.ctx), 60000):     # cut runaway generators short
                 pair = [self.O(x.members()), self.P(i.members())]
                 res.append(pair)
@@ -418,6 +456,27 @@ class CtxRecorder:
             dot = lat.graphviz(make_object_label=cbo)
         elif mode == 'only-property-callback':
             dot = lat.graphviz(make_property_label=cbp)
+        elif mode == 'again-after-abort':
+            # a drawing aborted half-way by an exception from the caller's own label callback (caught by the caller)
+            # must leave nothing behind: the next drawing is complete
+            class Abort(Exception):
+                pass
+            for limit in (1, 2 + self.b % 3, len(ms) // 2 + 1):
+                left = [limit]
+
+                def boom(names, left=left):
+                    left[0] -= 1
+                    if left[0] <= 0:
+                        raise Abort()
+                    return 'x'
+                for kw in ({'make_object_label': boom}, {'make_property_label': boom},
+                           {'make_object_label': boom, 'make_property_label': boom}):
+                    left[0] = limit
+                    try:
+                        lat.graphviz(**kw)
+                    except Abort:
+                        pass
+            dot = lat.graphviz(make_object_label=cbo, make_property_label=cbp)
         elif mode == 'again-after-edit':
             # the returned Digraph is the caller's to change; a later call must draw the lattice afresh
             first = lat.graphviz(make_object_label=cbo, make_property_label=cbp)
@@ -748,6 +807,83 @@ def pick_pairs(N, rng, limit):
     return sorted(out)
 
 
+def drive_orphans(rec, table, b, families, rng, keep=False):
+    """Concept objects that outlive every other reference of the caller to their lattice and context (those are
+    dropped and the garbage collector is run) keep answering: predicates, joins / meets, traversals, links, labels,
+    generating sets.  Runs as the last step of a behaviour; the recorder gets a new context afterwards."""
+    import gc
+    prop = sorted(families)[0][:3]
+
+    def T(fn, *args, **kw):
+        try:
+            with watchdog(CALL_TIMEOUT):
+                fn(*args, **kw)
+            return True
+        except Exception as exc:  # noqa
+            rec.ev('crash', prop=prop, call='orphans.' + fn.__name__, args=repr((args, kw))[:300],
+                   exc=type(exc).__name__, msg=str(exc)[:300])
+            return False
+
+    ms = rec.members
+    N = len(ms)
+    rec.b = b
+    rec.ev('ctx.new', n=table.n, m=table.m, rows=table.rows, tag=table.tag + ':orphaned-concepts')
+    if not isinstance(rec.ctx, OrphanShim):
+        rec.ctx = OrphanShim(ms)
+    gc.collect()
+    gc.collect()
+    T(rec.lat_list)
+    if 'C05' in families or 'C06' in families:
+        T(rec.lat_links)
+    if 'C06' in families:
+        T(rec.lat_order)
+    if 'C07' in families:
+        for i, j in pick_pairs(N, rng, 12):
+            for name in ('join', 'meet'):
+                T(rec.joinmeet, name, 'method', [i, j])
+                T(rec.joinmeet, name, 'op', [i, j])
+                T(rec.joinmeet, name, 'nary', [i, j, i])
+    if 'C08' in families:
+        T(rec.preds, rng)
+    if 'C09' in families:
+        for i in (range(N) if N <= 12 else sorted({0, 1, N - 1, N // 2})):
+            T(rec.traverse, 'upset', [i])
+            T(rec.traverse, 'downset', [i])
+        T(rec.traverse, 'upset_union', [0, N - 1, N // 2])
+        T(rec.traverse, 'downset_union', [N - 1, N // 2])
+    if 'C10' in families:
+        T(rec.lat_labels)
+    if 'C18' in families and table.m <= 10:
+        for i in (range(N) if N <= 8 else sorted({0, 1, N - 1, N // 2})):
+            T(rec.attributes, i)
+    if not keep:
+        rec.ctx = None
+        rec._members = None
+
+
+def abort_drawing(rec):
+    """lattice.graphviz() aborted by an exception from the caller's own label callback; returns how often."""
+    class Abort(Exception):
+        pass
+    lat = rec.ctx.lattice
+    n = 0
+    for limit in (1, 2, len(lat) // 2 + 1):
+        left = [limit]
+
+        def boom(names):
+            left[0] -= 1
+            if left[0] <= 0:
+                raise Abort()
+            return 'x'
+        for kw in ({'make_object_label': boom}, {'make_property_label': boom}):
+            left[0] = limit
+            try:
+                lat.graphviz(**kw)
+            except Abort:
+                n += 1
+    return n
+
+
 def drive(rec, table, b, families, rng, exhaustive_queries, nsub=10, nmulti=12, label_variant=0, construct=True,
           touch_cached=True):
     """Record one behaviour: construct the context, then the calls of the requested families."""
@@ -965,8 +1101,14 @@ def drive(rec, table, b, families, rng, exhaustive_queries, nsub=10, nmulti=12, 
             for i in idxs:
                 T(rec.attributes, i)
     if 'C20' in families:
+        if b % 2 == 1:
+            # the very first drawing of this lattice object is one that the caller's callback aborts
+            T(rec.graphviz, 'again-after-abort')
         T(rec.graphviz, 'callbacks')
         T(rec.graphviz, 'default')
         T(rec.graphviz, 'only-object-callback' if b % 2 else 'only-property-callback')
         T(rec.graphviz, 'again-after-edit')
         T(rec.graphviz, 'default')
+        if b % 2 == 0:
+            T(rec.graphviz, 'again-after-abort')
+            T(rec.graphviz, 'default')
